@@ -30,7 +30,8 @@ var c14Danger = []string{"\\", "'", "\"", "`", "u", "n", "\x00", "\n", "\u00e9",
 // c14Words: names and values that read like syntax, keywords, numbers or function names.
 var c14Words = []string{"null", "true", "false", "0", "-1", "007", "1e5", "1.0", "-0", "*", "@", "&", "&&", "||", "|", "!", "==", "<=", "a.b", "a.b.c", "[0]", "[]", "[*]", "[?a]", "a[0]", "{a:b}", "a,b", "a:b", "(a)",
 	" a", "a ", " ", "  ", "\t", "a b", "sort_by", "length", "length(@)", "not_null", "and", "or", "not", "Name", "name", "NAME", "_", "__proto__", "constructor", "a-b", "a/b", "a\\b", "'a'", "\"a\"", "`a`", "`1`",
-	"0x10", "NaN", "Infinity", "-", "--", ".", "..", "a.", ".a", "$", "$ref", "#", "%s", "%d"}
+	"0x10", "NaN", "Infinity", "-", "--", ".", "..", "a.", ".a", "$", "$ref", "#", "%s", "%d",
+	"keys", "values", "type", "toString", "hasOwnProperty", "prototype", "undefined", "nil", "None", "NULL", "True", "id", "class", "self", "this", "in", "cont", "k", "v", "e", "E", "1e", "_0", "0_"}
 
 func c14Strings(seed uint64, nrand int) (int, func(i int) string) {
 	A, D := len(c14Alphabet), len(c14Danger)
@@ -96,7 +97,7 @@ func interesting(s string) bool {
 const c14Marker = "⟨M⟩"
 
 func c14(r *mon.Run) {
-	r.Rule = "round-trip identities over strings: every string of length <= 2 over a 48-symbol trouble alphabet (backslash, the three delimiters, u n 0, whitespace, NUL and controls, DEL, U+0080, U+2028, U+FFFD, U+FFFF, astral and plane-boundary code points, structural characters), every length-3 string over the 12 most dangerous, 71 words that read like keywords, numbers, operators, paths, function names or other syntax, seeded random strings of length <= 40 over all planes: " +
+	r.Rule = "round-trip identities over strings: every string of length <= 2 over a 48-symbol trouble alphabet (backslash, the three delimiters, u n 0, whitespace, NUL and controls, DEL, U+0080, U+2028, U+FFFD, U+FFFF, astral and plane-boundary code points, structural characters), every length-3 string over the 12 most dangerous, 95 words that read like keywords, numbers, operators, paths, function names or other syntax, seeded random strings of length <= 40 over all planes: " +
 		"(a) the quoted identifier spelled by three independent JSON string encoders (minimal / all-\\uXXXX with surrogate pairs / random mix incl. \\/ \\b \\f) must select exactly key s among decoy keys; (b) the raw string (with ' as \\') must denote s; (c) literals: JSON values built from those strings as keys and leaves, in compact / spaced / escaped text with ` as \\`, must denote v; " +
 		"(d) every ASCII string of length <= 2 and every length-3 string over [A-Za-z0-9_] plus 12 other bytes parses as the field of that name iff it matches [A-Za-z_][A-Za-z0-9_]*; (e) whitespace around tokens; (f) two or three names/constants in one expression (lists, hashes, pipes, comparisons): every lexeme must still denote its own value; (g) each kind of failing lexeme followed by the round trips again (nothing may survive a failed expression). Non-trivial = distinct (layer, string) with a backslash, delimiter, control or non-ASCII code point."
 	r.Floor = 2000
